@@ -769,6 +769,25 @@ def mk_table(rng, names, n, types=None):
     return {"names": list(names), "types": list(types), "cols": cols}
 
 
+def _copy_sources(spec):
+    """names of the columns that computed readers in the tree copy from (under every renaming on the way)"""
+    out = set()
+    if isinstance(spec, dict):
+        if spec.get("k") == "computed" and isinstance(spec.get("fn"), list) and spec["fn"] and spec["fn"][0] == "copy":
+            out.update(str(x) for x in spec["fn"][1:])
+        if spec.get("k") == "mapped":
+            for a, b in spec.get("map", []):
+                out.update([a, b]) if (a in _copy_sources(spec.get("r")) or b in _copy_sources(spec.get("r"))) else None
+        for v in spec.values():
+            if isinstance(v, dict):
+                out |= _copy_sources(v)
+            elif isinstance(v, list):
+                for x in v:
+                    if isinstance(x, dict):
+                        out |= _copy_sources(x)
+    return out
+
+
 def plain_table(names, n, off=0):
     """deterministic table: int, float, str, bool columns"""
     types = ["i", "f", "s", "b"]
@@ -1002,7 +1021,13 @@ def gen_malformed(ctx):
             cols.insert(rng.randint(0, len(cols)), "nope")
         elif mut == "dup":
             cols = list(cols or spec_names(rd))
-            cols.insert(rng.randint(0, len(cols)), rng.choice(cols))
+            # not the source column of a computed reader's copy function: with that column requested twice the harness's own
+            # function receives a two-column frame and raises — an artefact of the harness, not behaviour of the reader
+            srcs = _copy_sources(rd)
+            cand = [x for x in cols if x not in srcs] or None
+            if cand is None:
+                continue
+            cols.insert(rng.randint(0, len(cols)), rng.choice(cand))
         elif mut == "c0":
             c = 0
         elif mut == "uneq":
